@@ -295,6 +295,111 @@ fn unsafe_case_strategy() -> BoxedStrategy<UnsafeCase> {
         .boxed()
 }
 
+/// encoding, succeeding or failing, under two different fillings of fresh and of freed heap memory: the bytes (or the
+/// error) must not depend on it, and whatever the call allocated is released exactly once (a second release, or a
+/// write into a released block, ends the worker process — reported with the case that was running)
+pub fn check_enc_safety(c: &crate::props::builtin::TV, acc: &mut Acc, record: bool) -> Verdict {
+    let run = || crate::run::guarded(|| vcat::encode(&c.ty, &c.val).0.map_err(|e| e.kind));
+    let plain = run();
+    let a = crate::alloc::with_poison(0x53, run);
+    let b = crate::alloc::with_poison(0xAC, run);
+    if record {
+        let failing = matches!(&plain, Ok(Err(_)));
+        acc.case(if failing { "encode that fails (error path through buffers)" } else { "encode" }, hash_json(c), failing && c.ty.any(&|t| matches!(t, Ty::Adt(_))));
+    }
+    let hashy = c.ty.any(&|t| matches!(t, Ty::HashSet(_) | Ty::HashMap(..)));
+    let same = |x: &Result<Result<Vec<u8>, String>, String>, y: &Result<Result<Vec<u8>, String>, String>| match (x, y) {
+        (Ok(Ok(p)), Ok(Ok(q))) => hashy && p.len() == q.len() || p == q,
+        (Ok(Err(p)), Ok(Err(q))) => p == q,
+        _ => false,
+    };
+    if let Err(p) = &plain {
+        return Verdict::Fail(format!("encoding {} as {} panicked: {p}", c.val.brief(), c.ty.render()));
+    }
+    if !same(&plain, &a) || !same(&plain, &b) {
+        return Verdict::Fail(format!("encoding {} as {} depends on what heap memory contains: {:?} / {:?} / {:?}", c.val.brief(), c.ty.render(), plain.as_ref().map(|r| r.as_ref().map(|b| hex(b))), a.as_ref().map(|r| r.as_ref().map(|b| hex(b))), b.as_ref().map(|r| r.as_ref().map(|b| hex(b)))));
+    }
+    Verdict::Pass
+}
+
+#[derive(Debug, Clone, Serialize, Deserialize)]
+pub struct FickleCase {
+    pub base: usize,
+    pub grow: usize,
+    /// 0 serialize_to_byte_vec, 1 serialize_to_bytes, 2 serialize into a Vec
+    pub entry: u8,
+    pub bulk: bool,
+}
+
+/// A BinarySerializer written in safe code whose output grows by `grow` bytes with every call on the same value
+/// (interior mutability: an audit counter, a cache filled on first use). Whatever an entry point does with it — call it
+/// once, or more than once — the buffer it returns must own every byte it claims to hold.
+struct Fickle {
+    calls: std::cell::Cell<usize>,
+    base: usize,
+    grow: usize,
+    bulk: bool,
+}
+impl desert::BinarySerializer for Fickle {
+    fn serialize<O: desert::BinaryOutput>(&self, ctx: &mut desert::SerializationContext<O>) -> desert::Result<()> {
+        use desert::BinaryOutput as _;
+        let n = self.base + self.calls.get() * self.grow;
+        self.calls.set(self.calls.get() + 1);
+        if self.bulk {
+            ctx.write_bytes(&vec![0xABu8; n]);
+        } else {
+            for _ in 0..n {
+                ctx.write_u8(0xAB);
+            }
+        }
+        Ok(())
+    }
+}
+
+pub fn check_fickle(c: &FickleCase, acc: &mut Acc, record: bool) -> Verdict {
+    if record {
+        acc.case("serializer whose output grows from call to call", hash_json(c), true);
+    }
+    let run = || {
+        crate::run::guarded(|| {
+            let f = Fickle { calls: std::cell::Cell::new(0), base: c.base, grow: c.grow, bulk: c.bulk };
+            let (len, cap, content_ok) = match c.entry % 3 {
+                0 => {
+                    let v = desert::serialize_to_byte_vec(&f).map_err(|e| vcat::errinfo(&e).kind)?;
+                    (v.len(), v.capacity(), v.len() <= v.capacity() && v.iter().all(|b| *b == 0xAB))
+                }
+                1 => {
+                    let v = desert::serialize_to_bytes(&f).map_err(|e| vcat::errinfo(&e).kind)?;
+                    (v.len(), v.len(), v.iter().all(|b| *b == 0xAB))
+                }
+                _ => {
+                    let v = desert::serialize(&f, Vec::new()).map_err(|e| vcat::errinfo(&e).kind)?;
+                    (v.len(), v.capacity(), v.len() <= v.capacity() && v.iter().all(|b| *b == 0xAB))
+                }
+            };
+            Ok::<_, String>((len, cap, content_ok, f.calls.get()))
+        })
+    };
+    for fill in [None, Some(0x53u8), Some(0xAC)] {
+        let r = match fill {
+            None => run(),
+            Some(x) => crate::alloc::with_poison(x, run),
+        };
+        match r {
+            Ok(Ok((len, cap, content_ok, calls))) => {
+                // the length is what one of the calls wrote, the buffer owns it, and every byte came from the serializer
+                let legit = (0..calls.max(1)).any(|k| len == c.base + k * c.grow);
+                if len > cap || !content_ok || !legit {
+                    return Verdict::Fail(format!("a serializer that wrote {} bytes at first and {} more per call ({calls} calls) gives a buffer that claims {len} bytes, owns {cap}, contents from the serializer: {content_ok}", c.base, c.grow));
+                }
+            }
+            Ok(Err(e)) => return Verdict::Fail(format!("encoding failed: {e}")),
+            Err(p) => return Verdict::Fail(format!("encoding panicked: {p}")),
+        }
+    }
+    Verdict::Pass
+}
+
 pub fn check_unsafe(c: &UnsafeCase, acc: &mut Acc, record: bool) -> Verdict {
     let frag = match ref_encode(&c.ty, &c.val) {
         Ok(f) => f,
@@ -651,6 +756,17 @@ pub fn run_c19(cx: &Cx) -> PropResult {
         if drive(tag_seed(derive_seed(cx.seed, cx.prop, shard as u64, 4), 4), &strat, per_shard / 8, acc, &|c: &TailCase| to_json(&json!({"Tail": c})), &mut |c, a, r| check_tail(c, a, r)) {
             return;
         }
+        // the writing side: values of built-in and declared (evolved) types, a good part of which cannot be encoded
+        // (characters outside the BMP, transient constructors) so that the error leaves through chunk buffers
+        let strat = crate::props::builtin::tv_strategy_ext(3, ValCfg { non_bmp: true, transient_ctors: true, max_len: 5, long: false, ..ValCfg::default() }, true);
+        if drive(tag_seed(derive_seed(cx.seed, cx.prop, shard as u64, 6), 6), &strat, per_shard / 4, acc, &|c: &crate::props::builtin::TV| to_json(&json!({"Enc": c})), &mut |c, a, r| check_enc_safety(c, a, r)) {
+            return;
+        }
+        // a serializer (safe code) that writes more every time it is called
+        let strat = (prop_oneof![3 => 0usize..40, 1 => 1000usize..5000], 1usize..70, 0u8..3, any::<bool>()).prop_map(|(base, grow, entry, bulk)| FickleCase { base, grow, entry, bulk });
+        if drive(tag_seed(derive_seed(cx.seed, cx.prop, shard as u64, 7), 7), &strat, cx.n(1_500, 40_000), acc, &|c: &FickleCase| to_json(&json!({"Fickle": c})), &mut |c, a, r| check_fickle(c, a, r)) {
+            return;
+        }
         let strat = (any::<u8>(), prop_oneof![3 => 0usize..200, 2 => prop::sample::select(vec![1023usize, 1024, 1025, 4096, 8192, 65_536, 70_000]), 1 => 200usize..20_000], any::<u8>()).prop_map(|(shape, len, fill)| AliasCase { shape, len, fill });
         drive(tag_seed(derive_seed(cx.seed, cx.prop, shard as u64, 5), 5), &strat, cx.n(600, 20_000), acc, &|c: &AliasCase| to_json(&json!({"Alias": c})), &mut |c, a, r| check_alias(c, a, r));
     });
@@ -679,6 +795,14 @@ pub fn replay_c19(case: &Value) -> Verdict {
             Ok(_) => Verdict::Pass,
             Err(e) => Verdict::Fail(e),
         };
+    }
+    if let Some(t) = case.get("Fickle") {
+        let c: FickleCase = serde_json::from_value(t.clone()).expect("replay case");
+        return check_fickle(&c, &mut Acc::new(), false);
+    }
+    if let Some(t) = case.get("Enc") {
+        let c: crate::props::builtin::TV = serde_json::from_value(t.clone()).expect("replay case");
+        return check_enc_safety(&c, &mut Acc::new(), false);
     }
     if let Some(t) = case.get("Alias") {
         let c: AliasCase = serde_json::from_value(t.clone()).expect("replay case");
